@@ -18,6 +18,19 @@ from harness.lib import VERIF, shrink_seq
 # ------------------------------------------------------------------------------------------------ alphabets
 VALUES = {"red": 1, "blue": 2, "1px": 3, "inherit": 4, "green": 5}
 BADVALUE = "$"
+# value spellings that end in / contain the tokens the value grammar stops at: spelling -> stored value (None = the
+# value is rejected).  A trailing top-level ';' is accepted and dropped by PropertyValue (END production).
+VALUE_SPELLINGS = {"red;": "red", "blue ;": "blue", "1px;": "1px", "green;;": "green", "inherit;}": "inherit",
+                   "red !important": None, "red!": None, "red }": None, "1px}": None, "red)": None, "(red": None,
+                   "red {": None, ";": None, ";red": None}
+
+
+def canon(v):
+    """the value a value spelling is stored as; None = empty or rejected"""
+    if not v:
+        return None
+    v = VALUE_SPELLINGS.get(v, v)
+    return v if v in VALUES else None
 # raw spelling -> (Property(raw).literalname, name parses, the normalised name the spelling designates)
 DIGEST = {
     "color": ("color", True, "color"), "COLOR": ("color", True, "color"), "c\\olor": ("c\\olor", True, "color"),
@@ -50,7 +63,7 @@ def digest(raw):
 def varg(v):
     if not v:
         return "E"
-    return str(VALUES[v]) if v in VALUES else "B"
+    return str(VALUES[canon(v)]) if canon(v) else "B"
 
 
 # ------------------------------------------------------------------------------------------------ histories
@@ -89,8 +102,8 @@ def op_line(op):
     if k == "setp":
         _, r, raw, v, p, n, x = op
         lit, nok, _ = digest(raw)
-        wf = nok and v in VALUES
-        return "setp %d %d %s %d %d %d %d" % (r, wf, cps(lit), VALUES.get(v, 0), int(PRIO[p] == "I"), n, x)
+        wf = nok and canon(v) is not None
+        return "setp %d %d %s %d %d %d %d" % (r, wf, cps(lit), VALUES.get(canon(v), 0), int(PRIO[p] == "I"), n, x)
     if k == "rm":
         return "rm %s %d" % (cps(op[1]), op[2])
     if k == "si":
@@ -349,7 +362,8 @@ def _oracle_step(style, ref, op, outcome, cssnames):
             lit, nok, nn = digest(raw)
             if k != "setp" and not v:
                 expect_ret = ref.remove(lookup_name(raw))
-            elif nok and v in VALUES and not (PRIO[p] == "B" and bad):
+            elif nok and canon(v) is not None and not (PRIO[p] == "B" and bad):
+                v = canon(v)
                 if PRIO[p] == "B" and k != "setp" and op[1]:
                     return "unparsable priority accepted while raiseExceptions is on"
                 if normalize:
@@ -474,6 +488,28 @@ def _cssnames():
 _CSSNAMES = None
 
 
+def _independent_set():
+    """ASSUMPTION of the history theorems made explicit and checked after EVERY step: the outcome of an operation
+    depends on the block and the arguments only (`step` is a function of them) -- no state survives an operation
+    outside the block.  An unrelated, fresh block must accept and read back a plain value right after any operation,
+    whatever that operation was given (values ending in ';', rejected values, exceptions)."""
+    import css_parser
+    from css_parser.css import CSSStyleDeclaration
+    css_parser.log.raiseExceptions = False
+    try:
+        pb = CSSStyleDeclaration()
+        pb.setProperty("left", "inherit")
+        got = pb.getPropertyValue("left")
+        pb.setProperty("left", "1px", "important")
+        got2 = (pb.getPropertyValue("left"), pb.getPropertyPriority("left"))
+    except Exception as e:  # noqa
+        return "hidden state: setProperty on a fresh, unrelated block raised %r right after this operation" % (e,)
+    if got != "inherit" or got2 != ("1px", "important"):
+        return ("hidden state: right after this operation a fresh, unrelated block stores %r / %r for "
+                "setProperty('left', 'inherit') / ('left', '1px', 'important')" % (got, got2))
+    return None
+
+
 def run_history(h):
     """worker: runs one history on the implementation; returns (wire string comparable with the model's
     answer, first oracle failure or None, number of oracle-checked steps, final state)"""
@@ -492,7 +528,10 @@ def run_history(h):
         for idx, op in enumerate(h["ops"]):
             op = tuple(op)
             outcome, exc = _apply(style, op)
+            hidden = _independent_set()
             steps.append(outcome + "#" + _observe(style, h["probes"]))
+            if hidden and fail is None:
+                fail = (idx, hidden)
             if outcome == "X:Crash" and fail is None:
                 fail = (idx, "operation crashed: %r" % (exc,))
             if oracle_on and fail is None:
@@ -532,6 +571,11 @@ def core_ops():
     ops.append(("rm", "c\\olor", 0))
     ops.append(("st", 1, 0, (("D", "color", "red", 0), ("C", 1), ("D", "c\\olor", "blue", 1), ("D", "top", "1px", 0))))
     ops.append(("set", 1, " color ", "green", "", 1, 1))
+    # values that end in a token the value grammar stops at, through every string-valued entry point, both modes
+    ops.append(("si", 1, "color", "red;", "-"))
+    ops.append(("sa", 0, "top", "1px;"))
+    ops.append(("set", 0, "color", "blue ;", "important", 1, 1))
+    ops.append(("set", 1, "top", "1px}", "", 1, 1))
     return ops
 
 
@@ -595,6 +639,8 @@ def rand_op(rng, literal=True, weird=False):
         v = BADVALUE
     elif r < 0.14:
         v = rng.choice(["", None])
+    elif r < 0.30:
+        v = rng.choice(list(VALUE_SPELLINGS))
     p = rng.choice(["", "", "", None, "important", "!important", "IMPORTANT", "important", "x"])
     raising = int(rng.random() < 0.6)
     n = 0 if (literal and rng.random() < 0.2) else 1
@@ -603,7 +649,7 @@ def rand_op(rng, literal=True, weird=False):
     if k < 0.42:
         return ("set", raising, raw, v, p, n, x)
     if k < 0.50:
-        return ("setp", raising, raw, v or "red", p, n, x)
+        return ("setp", raising, raw, v or "red", p, n, x)   # Property(raw, v): the value may carry a stop token too
     if k < 0.62:
         return ("rm", raw, n)
     if k < 0.70:
@@ -624,7 +670,7 @@ def gen_histories(ctx, thorough):
     core = core_ops()
     depth = 4 if thorough else 3
     inits = [(), (("D", "color", "red", 1), ("C", 1), ("D", "COLOR", "blue", 0))]
-    ops_for = core if not thorough else core[:20]
+    ops_for = core if not thorough else core[:16] + core[-4:]
     for init in inits[:1 if thorough else 2]:
         for seq_ in itertools.product(ops_for, repeat=depth):
             hs.append({"ro": 0, "probes": PROBES[:6], "init": list(init), "ops": list(seq_)})
@@ -671,6 +717,11 @@ def check_digests(ctx):
             p = Property(raw, "red")
             if (p.literalname, bool(p.wellformed)) != (lit, nok) or (nok and p.name != nn):
                 bad.append((raw, (p.literalname, p.wellformed, p.name), (lit, nok, nn)))
+        for sp, want in VALUE_SPELLINGS.items():
+            p = Property("color", sp)
+            got = p.value if p.wellformed else None
+            if got != want:
+                bad.append(("value spelling", sp, got, want))
     finally:
         css_parser.log.raiseExceptions = True
     if bad:
